@@ -41,7 +41,7 @@ PROPS = {
     "C03": {"props_file": "Props/C03.v", "families": ["hist", "transfer", "policy", "sched", "marshaljunk"], "design_ref": "DESIGN.md §8 C03",
             "level_text": "Theorems c03_*: every state reachable from a constructor with capacity k by any history holds <= k elements and answers Len/Cap/Avail/IsFull with n, k, k-n, n==k; without capacity -1/-1/false; Push keeps the earliest offered values; Insert on a full stack is a no-op. Proved from the refinement theorem plus a capacity invariant of the specification.",
             "technique": "Coq invariant proof over all histories (corollary of the refinement theorem) + differential correspondence check"},
-    "C08": {"props_file": "Props/C08.v", "families": ["indexsweep", "awkward", "hist", "sched", "policy"], "design_ref": "DESIGN.md §8 C08",
+    "C08": {"props_file": "Props/C08.v", "families": ["indexsweep", "awkward", "hist", "sched", "policy", "reveal"], "design_ref": "DESIGN.md §8 C08",
             "level_text": "Index part proved: every history with arbitrary Go-int indices (MinInt/MaxInt included) runs without Panic in the regenerated raw-slot model and never reads or overwrites the configuration slot; non-addressing indices make Index/Remove/Replace/Swap fail with the state untouched; -k / oversize indices address what the options promise. Value part: panics on awkward Go values live in reflect and cannot be proved over a model of Go; it is decided by the exhaustive awkward-value family (24 methods x 52 values x receiver states + observer battery) and, for the two alias converters, by the theorems of C12.",
             "technique": "Coq proof over the regenerated index/guard fragments (all ints) + exhaustive boundary sweep and awkward-value differential families",
             "assumptions": ["the value part (arbitrary Go values through reflect) is covered by exhaustive enumeration of a 52-value catalogue, not by a theorem"]},
@@ -70,7 +70,7 @@ PROPS = {
     "C15": {"props_file": "Props/C15.v", "families": ["transfer"], "design_ref": "DESIGN.md §8 C15",
             "level_text": "Theorems c15_*: for all source/destination contents, capacities, destination options and push policies, the model of Stack.Transfer (pre-check and success expression regenerated from /repo) agrees with the specification: true is returned only if the destination ends as its previous elements followed by every source element in order; too little free capacity, a read-only or non-convertible destination give false and no change; the source is not an output of the operation at all.",
             "technique": "Coq refinement proof over two raw-slot states + exhaustive/random differential correspondence check"},
-    "C14": {"props_file": "Props/C14.v", "families": ["policy", "closures"], "design_ref": "DESIGN.md §8 C14",
+    "C14": {"props_file": "Props/C14.v", "families": ["policy", "closures"], "race": {"mode": "policy", "rounds": [6, 40], "workers": 2, "invariants_only": True}, "design_ref": "DESIGN.md §8 C14",
             "level_text": "Theorem c14_push_policy holds for EVERY policy function: consulted values are a prefix of the batch, each once, in order; approved ones are exactly what is appended; the first rejection stops the batch, is recorded in Err and is not stored; capacity respected.",
             "technique": "Coq proof parametric in the policy closure + differential correspondence check with logged table-driven policies"},
 }
